@@ -21,7 +21,7 @@ mut_demo=$(cd $d && go test -vet=off -count=1 -run '^TestDemo$' ./jen 2>&1 | tai
 rm -f $d/jen/zz_demo_test.go
 echo "unchanged+demo: $base_demo"; echo "build: ${build:-ok}"; echo "suite with change: $suite"; echo "changed+demo: $mut_demo"
 t0=$(date +%s)
-VERIF_REPO=$d timeout 1500 /verif/bin/gosmt check $chk --tier quick > $out/check_output.txt 2>&1; rc=$?
+GOSMT_EVIDENCE_DIR=/tmp/seed_evidence GOSMT_REPLAY_DIR=/tmp/seed_replays VERIF_REPO=$d timeout 1500 /verif/bin/gosmt check $chk --tier quick > $out/check_output.txt 2>&1; rc=$?
 t1=$(date +%s)
 grep -v "^INCONCL" $out/check_output.txt | tail -4 | cut -c1-400
 echo "check exit=$rc in $((t1-t0))s"
